@@ -237,7 +237,7 @@ def _post_eval_overrides(r, idx):
         if ci.qualname == MM or 'post_eval_validation' not in ci.methods:
             continue
         f = ci.methods['post_eval_validation']
-        name = '%s.post_eval_validation' % ci.name
+        name = f.qualname       # full qualified name: the finding is about this (new) function itself
         p_expr = f.params[1] if len(f.params) > 1 else None
         env = fl.flat_env(f.node)
         reported = False
